@@ -4,8 +4,11 @@
 package main
 
 import (
+	"hash/fnv"
+	"runtime/debug"
 	"strconv"
 	"strings"
+	"time"
 
 	"github.com/richardwilkes/toolbox/xmath/num"
 	"verifharness/hx"
@@ -36,6 +39,25 @@ func pI(s string) num.Int128 {
 	return num.Int128FromComponents(hi, lo)
 }
 
+// alt is set per line (from a hash of the line): operands are then built and results read through the
+// reinterpreting conversions AsInt128 / AsUint128 instead of FromComponents / Components, so that both ways of
+// getting a value in and out of the two types are exercised by every operation (hardening class 3).
+var alt bool
+
+func mkU(s string) num.Uint128 {
+	if alt {
+		return pI(s).AsUint128()
+	}
+	return pU(s)
+}
+
+func mkI(s string) num.Int128 {
+	if alt {
+		return pU(s).AsInt128()
+	}
+	return pI(s)
+}
+
 func pW(s string) uint64 {
 	if len(s) < 2 || s[0] != 'x' {
 		panic("hx: bad word " + s)
@@ -49,11 +71,17 @@ func pW(s string) uint64 {
 
 func fU(u num.Uint128) string {
 	hi, lo := u.Components()
+	if alt {
+		hi, lo = u.AsInt128().Components()
+	}
 	return strconv.FormatUint(hi, 16) + ":" + strconv.FormatUint(lo, 16)
 }
 
 func fI(i num.Int128) string {
 	hi, lo := i.Components()
+	if alt {
+		hi, lo = i.AsUint128().Components()
+	}
 	return strconv.FormatUint(hi, 16) + ":" + strconv.FormatUint(lo, 16)
 }
 
@@ -156,28 +184,31 @@ var iI = map[string]func(a num.Int128) string{
 	"asuint64":  func(a num.Int128) string { return fW(a.AsUint64()) },
 }
 
-func (area) Run(line string) string {
+func exec(line string) string {
 	f := strings.Fields(line)
 	if len(f) < 3 {
 		return "bad-op"
 	}
 	op := f[1]
+	h := fnv.New32a()
+	h.Write([]byte(line))
+	alt = h.Sum32()&1 == 1
 	switch f[0] {
 	case "u":
 		switch len(f) {
 		case 3:
 			if fn, ok := uU[op]; ok {
-				return fn(pU(f[2]))
+				return fn(mkU(f[2]))
 			}
 			if op == "from64" {
 				return fU(num.Uint128From64(pW(f[2])))
 			}
 		case 4:
 			if fn, ok := uUU[op]; ok {
-				return fn(pU(f[2]), pU(f[3]))
+				return fn(mkU(f[2]), mkU(f[3]))
 			}
 			if fn, ok := uUW[op]; ok {
-				return fn(pU(f[2]), pW(f[3]))
+				return fn(mkU(f[2]), pW(f[3]))
 			}
 			switch op {
 			case "shl", "shr":
@@ -186,15 +217,15 @@ func (area) Run(line string) string {
 					return "bad-op"
 				}
 				if op == "shl" {
-					return fU(pU(f[2]).LeftShift(uint(c)))
+					return fU(mkU(f[2]).LeftShift(uint(c)))
 				}
-				return fU(pU(f[2]).RightShift(uint(c)))
+				return fU(mkU(f[2]).RightShift(uint(c)))
 			case "bit":
 				i, err := strconv.ParseInt(f[3], 10, 64)
 				if err != nil {
 					return "bad-op"
 				}
-				return strconv.FormatUint(uint64(pU(f[2]).Bit(int(i))), 10)
+				return strconv.FormatUint(uint64(mkU(f[2]).Bit(int(i))), 10)
 			}
 		case 5:
 			if op == "setbit" {
@@ -203,14 +234,14 @@ func (area) Run(line string) string {
 				if err != nil || err2 != nil {
 					return "bad-op"
 				}
-				return fU(pU(f[2]).SetBit(int(i), uint(b)))
+				return fU(mkU(f[2]).SetBit(int(i), uint(b)))
 			}
 		}
 	case "i":
 		switch len(f) {
 		case 3:
 			if fn, ok := iI[op]; ok {
-				return fn(pI(f[2]))
+				return fn(mkI(f[2]))
 			}
 			if op == "from64" {
 				return fI(num.Int128From64(int64(pW(f[2]))))
@@ -220,14 +251,69 @@ func (area) Run(line string) string {
 			}
 		case 4:
 			if fn, ok := iII[op]; ok {
-				return fn(pI(f[2]), pI(f[3]))
+				return fn(mkI(f[2]), mkI(f[3]))
 			}
 			if fn, ok := iIW[op]; ok {
-				return fn(pI(f[2]), int64(pW(f[3])))
+				return fn(mkI(f[2]), int64(pW(f[3])))
 			}
 		}
 	}
 	return "bad-op"
 }
 
-func main() { hx.Main(map[string]hx.Area{"int128": area{}}) }
+// The exported limit variables take part in the arithmetic (Neg / AbsUint128 compare with MinInt128): an operation that
+// modified one of them would silently change later results.
+var (
+	maxU128Hi, maxU128Lo = num.MaxUint128.Components()
+	maxI128Hi, maxI128Lo = num.MaxInt128.Components()
+	minI128Hi, minI128Lo = num.MinInt128.Components()
+)
+
+func globalsIntact() bool {
+	a, b := num.MaxUint128.Components()
+	c, d := num.MaxInt128.Components()
+	e, f := num.MinInt128.Components()
+	return a == ^uint64(0) && b == ^uint64(0) && c == 1<<63-1 && d == ^uint64(0) && e == 1<<63 && f == 0 &&
+		a == maxU128Hi && b == maxU128Lo && c == maxI128Hi && d == maxI128Lo && e == minI128Hi && f == minI128Lo
+}
+
+// Per-call deadline (hardening class 8): every operation runs in its own goroutine; an operation that does not return
+// within the deadline is reported as `hang` for that line (the spinning goroutine is abandoned).  After three hangs the
+// rest of the stream is skipped, so that a looping mutant costs seconds, not the stream's timeout.
+const callDeadline = 2 * time.Second
+
+var hangs int
+
+func (area) Run(line string) string {
+	if hangs >= 3 {
+		return "skipped-after-crash"
+	}
+	done := make(chan string, 1)
+	go func() {
+		defer func() {
+			if r := recover(); r != nil {
+				done <- "panic"
+			}
+		}()
+		done <- exec(line)
+	}()
+	t := time.NewTimer(callDeadline)
+	defer t.Stop()
+	select {
+	case out := <-done:
+		if !globalsIntact() {
+			return "FAIL exported limit variable (MaxUint128/MaxInt128/MinInt128) modified; " + out
+		}
+		return out
+	case <-t.C:
+		hangs++
+		return "hang"
+	}
+}
+
+func main() {
+	// unbounded recursion is fatal in Go (not recoverable); a small limit makes such a mutant die in milliseconds
+	// instead of after filling a 1 GB stack, so that the crash is attributed to its line within the quick budget
+	debug.SetMaxStack(32 << 20)
+	hx.Main(map[string]hx.Area{"int128": area{}})
+}
